@@ -994,3 +994,219 @@ def r_sig(ctx):
     if n < 30:
         res.coverage_lost("<crate>", "expected >= 30 public methods with borrowed outputs, found %d" % n)
     return res
+
+
+# ------------------------------------------------------------------------------------------------ R-CONFIG (needs two configurations)
+
+def _strip(x):
+    """structural form of a body: drop line numbers / expansion flags"""
+    if isinstance(x, dict):
+        return {k: _strip(v) for k, v in x.items() if k not in ("line", "expn", "span", "end_line")}
+    if isinstance(x, list):
+        return [_strip(v) for v in x]
+    return x
+
+
+def body_hash(f):
+    s = json.dumps(_strip({"locals": [t["s"] for t in f["locals"]], "blocks": f["blocks"]}), sort_keys=True)
+    return hashlib.sha256(s.encode()).hexdigest()[:16]
+
+
+def r_config(ctxs):
+    res = RuleResult("R-CONFIG")
+    d = ctxs.get("default")
+    n = ctxs.get("no-alloc")
+    if d is None or n is None:
+        res.coverage_lost("<crate>", "R-CONFIG needs the default and the no-alloc fact files")
+        return res
+    # (a) the no-alloc build type-checks (fact file exists) and links only core
+    ex = set(n.fx.crate["extern_crates"])
+    res.inst(sample={"no_alloc_extern_crates": sorted(ex), "no_std": n.fx.crate["no_std"]})
+    if ex - {"core", "compiler_builtins", "rustc_std_workspace_core"}:
+        res.fail("<crate>", "extern-crates", "built without default features the crate still links %s" % sorted(ex - {"core", "compiler_builtins"}))
+    else:
+        res.ok()
+    res.inst(sample={"attribute": "#![no_std]", "default": d.fx.crate["no_std"], "no_alloc": n.fx.crate["no_std"]})
+    if not (d.fx.crate["no_std"] and n.fx.crate["no_std"]) or "std" in ex or "std" in d.fx.crate["extern_crates"]:
+        res.fail("<crate>", "no_std", "the crate is not #![no_std] in both configurations")
+    else:
+        res.ok()
+    res.inst(sample={"feature_alloc_in_no_alloc_cfg": "feature=alloc" in n.fx.crate["cfg"]})
+    if "feature=alloc" in n.fx.crate["cfg"] or "feature=alloc" not in d.fx.crate["cfg"]:
+        res.fail("<crate>", "feature-gate", "the alloc feature is not what distinguishes the two configurations")
+    else:
+        res.ok()
+    # (b) API surface: no-alloc = default - mem::heap
+    da = {(a["path"], a["kind"]) for a in d.fx.api}
+    na = {(a["path"], a["kind"]) for a in n.fx.api}
+    only_d = sorted(da - na)
+    only_n = sorted(na - da)
+    res.inst(sample={"api_items_default": len(da), "api_items_no_alloc": len(na), "only_in_default": [p for p, k in only_d][:8]})
+    badd = [p for p, k in only_d if not (p.startswith("mem::heap") or p.startswith("<mem::heap"))]
+    heap_in_n = [p for p, k in na if p.startswith("mem::heap") or p.startswith("<mem::heap")]
+    if badd:
+        res.fail(badd[0], "api-missing-without-alloc", "public item %s exists only with the alloc feature although it is not part of the heap backend" % badd[0])
+    elif only_n:
+        res.fail(only_n[0][0], "api-only-without-alloc", "public item %s exists only without the alloc feature" % only_n[0][0])
+    elif heap_in_n:
+        res.fail(heap_in_n[0], "heap-without-alloc", "the heap backend is offered without the alloc feature")
+    elif not [p for p, k in only_d if p.startswith("mem::heap")]:
+        res.fail("mem::heap", "heap-missing", "the default configuration offers no heap backend (anchor lost)", kind="coverage-lost")
+    else:
+        res.ok()
+    # impl surface (trait impls of public types)
+    di = {(im.get("trait_ref") or "", im["self_ty"]["s"]) for im in d.fx.impls}
+    ni = {(im.get("trait_ref") or "", im["self_ty"]["s"]) for im in n.fx.impls}
+    diff = sorted(x for x in (di ^ ni) if "mem::heap" not in x[0] and "mem::heap" not in x[1])
+    res.inst(sample={"impls_default": len(di), "impls_no_alloc": len(ni), "unexplained_difference": diff[:4]})
+    if diff:
+        res.fail(diff[0][1], "impl-surface", "impl `%s for %s` exists in only one configuration" % diff[0])
+    else:
+        res.ok()
+    # (c) every body present in both configurations is the same code
+    dh = {f["path"]: body_hash(f) for f in d.fx.fn_list}
+    nh = {f["path"]: body_hash(f) for f in n.fx.fn_list}
+    common = sorted(set(dh) & set(nh))
+    nbad = 0
+    for p in common:
+        res.inst(sample={"body": p, "hash_default": dh[p], "hash_no_alloc": nh[p]} if p.endswith("::push") else None)
+        if dh[p] == nh[p]:
+            res.ok()
+        else:
+            nbad += 1
+            if nbad <= 5:
+                res.fail(p, "body-differs", "the body of %s differs between the default and the no-alloc build: behaviour depends on the alloc feature" % p,
+                         span=d.span_of(p))
+    missing = sorted(p for p in set(dh) - set(nh) if not (p.startswith("mem::heap") or p.startswith("<mem::heap")))
+    res.inst(sample={"bodies_common": len(common), "bodies_only_default": len(set(dh) - set(nh)), "non_heap_missing": missing[:4]})
+    if missing:
+        res.fail(missing[0], "body-missing-without-alloc", "%s is compiled only with the alloc feature" % missing[0], span=d.span_of(missing[0]))
+    else:
+        res.ok()
+    extra = sorted(set(nh) - set(dh))
+    if extra:
+        res.fail(extra[0], "body-only-without-alloc", "%s is compiled only without the alloc feature" % extra[0])
+    # the default backend alias
+    da_ = d.fx.aliases.get("mem::Default", {}).get("ty", {}).get("s")
+    na_ = n.fx.aliases.get("mem::Default", {}).get("ty", {}).get("s")
+    res.inst(sample={"mem::Default (default)": da_, "mem::Default (no-alloc)": na_})
+    if da_ and "heap" in da_ and na_ and "heap" not in na_:
+        res.ok()
+    else:
+        res.fail("mem::Default", "default-backend", "default backend alias is %s / %s" % (da_, na_))
+    return res
+
+
+# ------------------------------------------------------------------------------------------------ R-STACKCAP
+
+def r_stackcap(ctx):
+    """capacities of the fixed backends: Stack<SIZE> = SIZE / element size (usize::MAX for zero-sized), StackN<N,SIZE> = N with N*size <= SIZE checked at build"""
+    res = RuleResult("R-STACKCAP")
+    fx = ctx.fx
+    builds = {}
+    for im in fx.impls_of("mem::MemBuilder"):
+        st = im["self_ty"].get("path")
+        for it in im["items"]:
+            if it["name"] == "build":
+                builds[st] = it["path"]
+    sizes = {}
+    for im in fx.impls_of("mem::Mem"):
+        st = im["self_ty"].get("path")
+        for it in im["items"]:
+            if it["name"] == "size":
+                sizes[st] = it["path"]
+    # Stack
+    bp = builds.get("mem::stack::Stack")
+    if not bp:
+        res.coverage_lost("mem::stack::Stack", "MemBuilder::build not found")
+    for tt, I in ctx.arms(bp) or [] if bp else []:
+        fn = ctx.fn(bp)
+        res.inst(sample={"function": bp, "check": "capacity = SIZE / element size, usize::MAX iff element size == 0"}, func=bp)
+        divs = []
+        maxes = []
+        for node in I.g.nodes:
+            st = I.in_state.get(node.gid)
+            if st is None:
+                continue
+            for s in node.data["stmts"]:
+                rv = s.get("rv", {})
+                if rv.get("k") == "bin" and rv.get("op") == "Div":
+                    st2 = st.copy()
+                    a = I.eval_operand(st2, node.inst, rv["args"][0])
+                    b = I.eval_operand(st2, node.inst, rv["args"][1])
+                    divs.append((a, b, st.facts, s.get("line")))
+                if rv.get("k") == "use" and "const" in rv["args"][0] and rv["args"][0]["const"].get("val") == str(2 ** 64 - 1):
+                    maxes.append((st.facts, s.get("line")))
+        ok = True
+        if len(divs) != 1:
+            res.fail(bp, "capacity", "expected one division SIZE / element size, found %d" % len(divs), span=ctx.span_of(bp))
+            ok = False
+        else:
+            a, b, facts, line = divs[0]
+            if as_poly(a) != Poly.atom(("cparam", "SIZE")) or [x[0] for x in as_poly(b).atoms()] != ["lsize"] or len(as_poly(b).m) != 1:
+                res.fail(bp, "capacity", "capacity is computed as %s / %s, expected SIZE / element_layout.size()" % (a, b), span="%s:%s" % (fn["span"]["file"], line))
+                ok = False
+            elif not implies(facts, ("ne0", _canon(as_poly(b)))):
+                res.fail(bp, "zero-size-guard", "the division is not guarded by element size != 0", span="%s:%s" % (fn["span"]["file"], line))
+                ok = False
+            if len(maxes) != 1 or not implies(maxes[0][0], ("eq0", _canon(as_poly(b)))):
+                res.fail(bp, "zero-size-capacity", "zero-sized elements must get capacity usize::MAX (and only they)", span=ctx.span_of(bp))
+                ok = False
+        tr = ret_tree(I) or {}
+        if not (isinstance(tr.get(("element_layout",)), tuple) and tr[("element_layout",)][:1] == ("alias",) and tr[("element_layout",)][1][0] == ("A", 2)):
+            res.fail(bp, "layout", "the storage does not record the requested element layout", span=ctx.span_of(bp))
+            ok = False
+        if ok:
+            res.ok()
+    sp = sizes.get("mem::stack::StackMem")
+    for tt, I in ctx.arms(sp) or [] if sp else []:
+        rets = I.all_effects(("RETURN",))
+        v = rets[0]["value"] if rets else None
+        res.inst(sample={"function": sp, "returns": str(v)}, func=sp)
+        if isinstance(v, Poly) and [a[0] for a in v.atoms()] == ["init"] and list(v.atoms())[0][1][1] == ("size",):
+            res.ok()
+        else:
+            res.fail(sp, "size", "StackMem::size must report the capacity computed at build, returns %s" % (v,), span=ctx.span_of(sp))
+    # StackN
+    sp = sizes.get("mem::stack_n::StackNMem")
+    for tt, I in ctx.arms(sp) or [] if sp else []:
+        rets = I.all_effects(("RETURN",))
+        v = rets[0]["value"] if rets else None
+        res.inst(sample={"function": sp, "returns": str(v)}, func=sp)
+        if v == Poly.atom(("cparam", "N")):
+            res.ok()
+        else:
+            res.fail(sp, "size", "StackNMem::size must be N, returns %s" % (v,), span=ctx.span_of(sp))
+    bp = builds.get("mem::stack_n::StackN")
+    if not bp:
+        res.coverage_lost("mem::stack_n::StackN", "MemBuilder::build not found")
+    for tt, I in ctx.arms(bp) or [] if bp else []:
+        res.inst(sample={"function": bp, "check": "construction panics unless N x element size <= SIZE"}, func=bp)
+        rets = I.all_effects(("RETURN",))
+        ok = False
+        N, SZ = Poly.atom(("cparam", "N")), Poly.atom(("cparam", "SIZE"))
+        for r in rets:
+            for f in r["facts"]:
+                if f[0] == "ge0":
+                    p = f[1]
+                    ls = [a for a in p.atoms() if isinstance(a, tuple) and a[0] == "lsize"]
+                    if ls and p == SZ - N * Poly.atom(ls[0]):
+                        ok = True
+                if f[0] == "true" and isinstance(f[1], tuple) and f[1][:2] == ("optop", "map_or"):
+                    # checked form: N.checked_mul(size).map_or(false, |bytes| bytes <= SIZE)
+                    inner = repr(f[1])
+                    clos = [g for g in fx.fn_list if g["path"].startswith(bp + "::{closure")]
+                    good_clos = False
+                    for g in clos:
+                        for tt2, I2 in ctx.arms(g["path"]) or []:
+                            for r2 in I2.all_effects(("RETURN",)):
+                                v = r2["value"]
+                                if isinstance(v, tuple) and v[:2] == ("cmp", "Le") and v[3] == SZ:
+                                    good_clos = True
+                    if "'checked', 'Mul'" in inner and "cparam" in inner and good_clos:
+                        ok = True
+        if ok and rets:
+            res.ok()
+        else:
+            res.fail(bp, "fits-check", "StackN::build does not establish N x element size <= SIZE before returning", span=ctx.span_of(bp))
+    return res
